@@ -81,7 +81,7 @@ def structured(maxsize=8, big=False):
     return out
 
 
-def repo_examples(repo, maxcells=150):
+def repo_examples(repo, maxcells=300):
     """The repository's own example contexts of moderate size (read with a trivial cxt reader)."""
     out = []
     exdir = os.path.join(repo, 'examples')
